@@ -306,7 +306,7 @@ Definition engine_violations_c20 (cs : list ecase) : list (N * N) := classify c2
         same case) did inside each request ------------------------------------------------------------ *)
 Definition events_long (ec : ecase) : list (list ev) :=
   map (fun t => snd (fst t))
-      (model_trace_long (app_rsrc (ec_app ec)) (ec_cfg ec) (new_engine (ec_cfg ec) None [] []) (map fst (ec_long ec))).
+      (model_trace_long (app_rsrc (ec_app ec)) (ec_cfg ec) (long_init (ec_cfg ec)) (map fst (ec_long ec))).
 Definition events_pers (ec : ecase) : list (list ev) :=
   map (fun t => snd (fst t))
       (model_trace_pers (app_rsrc (ec_app ec)) (ec_cfg ec) (mkPw None [] [] false) (map fst (ec_pers ec))).
@@ -459,20 +459,36 @@ Definition c05_ok (ec : ecase) : bool :=
 (* ghost: a LOAD calls its function only when the symbol is not visible: replay of the cache is
    what the model does; here the observable consequence: within one request the same symbol's
    function is not called twice by LOAD instructions without an ascent in between *)
-Fixpoint c05_scan (last_op : N) (loaded : list bytes) (es : list ev) : bool :=
+(* may_fail: symbols whose function can fail, or whose result can be refused by the cache (over its
+   limit or over the capacity): a LOAD that did not store anything is legitimately repeated *)
+Fixpoint c05_scan (may_fail : list bytes) (last_op : N) (loaded : list bytes) (es : list ev) : bool :=
   match es with
   | [] => true
-  | EvInstr op :: r => c05_scan op loaded r
+  | EvInstr op :: r => c05_scan may_fail op loaded r
   | EvFunc s _ _ :: r =>
-    if last_op =? op_LOAD then negb (mem_bytes s loaded) && c05_scan last_op (s :: loaded) r
-    else c05_scan last_op loaded r
+    if (last_op =? op_LOAD) && negb (mem_bytes s may_fail)
+    then negb (mem_bytes s loaded) && c05_scan may_fail last_op (s :: loaded) r
+    else c05_scan may_fail last_op loaded r
   | EvMove _ t _ :: r =>
     (* any ascent may end the scope of loaded symbols *)
-    if bytes_eqb t t_up || bytes_eqb t t_top then c05_scan last_op [] r else c05_scan last_op loaded r
-  | _ :: r => c05_scan last_op loaded r
+    if bytes_eqb t t_up || bytes_eqb t t_top then c05_scan may_fail last_op [] r else c05_scan may_fail last_op loaded r
+  | _ :: r => c05_scan may_fail last_op loaded r
   end.
+(* symbols for which "LOAD called the function" does not imply "the value was stored" *)
+Definition load_limits (a : app) (s : bytes) : list N :=
+  List.concat (map (fun nc => List.concat (map (fun i => match i with ILoad s' sz => if bytes_eqb s s' then [w16 sz] else [] | _ => [] end)
+                                               (node_instrs a (fst nc)))) (a_code a)).
+Definition sym_may_not_store (a : app) (c : config) (f : bytes * list fres) : bool :=
+  existsb fr_fail (snd f)
+  || existsb (fun fr => fr_echo fr
+                        || existsb (fun l => (0 <? l) && (l <? len (fr_content fr))) (load_limits a (fst f))
+                        || ((0 <? c_cachesize c) && (c_cachesize c <? len (fr_content fr) + 1))) (snd f)
+  || (0 <? c_cachesize c).
+Definition may_fail_syms (a : app) (c : config) : list bytes :=
+  map fst (filter (sym_may_not_store a c) (a_funcs a)).
 Definition c05_class (ec : ecase) : option N :=
-  if c05_ok ec && forallb (c05_scan 0 []) (events_long ec) && forallb (c05_scan 0 []) (events_pers ec)
+  let mf := may_fail_syms (ec_app ec) (ec_cfg ec) in
+  if c05_ok ec && forallb (c05_scan mf 0 []) (events_long ec) && forallb (c05_scan mf 0 []) (events_pers ec)
   then None else Some 0.
 Definition engine_violations_c05 (cs : list ecase) : list (N * N) := classify c05_class 0 cs.
 
